@@ -56,6 +56,7 @@ THEOREMS = [
     "Nix.C18.C18_shape_entry",
     "Nix.C18.C18_shape_link",
     "Nix.C18.C18_texts_verbatim",
+    "Nix.C18.C18_reader_follows_version",
     "Nix.C18.C18_content_no_name_taken",
     "Nix.C18.C18_fails_only_on_taken_name",
     "Nix.C18.C18_content_full",
@@ -111,8 +112,10 @@ MANIFEST = {
                   "create_property itself - parameters handed to create_dataset unchanged, attributes written, definition / unit "
                   "only when non-empty -, the arguments of the main call each read once from the old dataset and passed on "
                   "unmodified, has_valid_file_id with uuid.UUID's acceptance modelled completely, file_upgrade's "
-                  "collect-then-process, the attributes of the new link group, RangeDimension.is_alias and the ticks/unit/label getters) is regenerated from nixio/cmd/upgrade.py "
-                  "and nixio/dimensions.py on every run and proved equal to the model (C18_shape_*); the rest of the "
+                  "collect-then-process, the attributes of the new link group, the header-version bound below which Property.values / "
+                  "uncertainty use the old-layout reader (C18_reader_follows_version: same values before and after; a converted "
+                  "property of an interrupted file is unreadable until the version is raised), RangeDimension.is_alias and the ticks/unit/label getters) is regenerated from nixio/cmd/upgrade.py, "
+                  "nixio/dimensions.py and nixio/property.py on every run and proved equal to the model (C18_shape_*); the rest of the "
                   "model is tied to the code by differential runs on h5py-crafted old files with every interruption "
                   "point.",
     "level_note": "Full for every old file the upgrade accepts (C18_content_full: no hypothesis on name clashes; extras "
@@ -132,8 +135,9 @@ MANIFEST = {
 
 
 def extract(repo):
-    """nixio/cmd/upgrade.py, nixio/dimensions.py -> NixModel/Generated/UpgradeShape.lean (shape of collect_tasks,
-    process_tasks, the tests and the rules of one conversion, the range dimension readers)"""
+    """nixio/cmd/upgrade.py, nixio/dimensions.py, nixio/property.py -> NixModel/Generated/UpgradeShape.lean (shape of
+    collect_tasks, process_tasks, the tests and the rules of one conversion, create_property, the range dimension
+    readers, the version switch of the property value readers)"""
     return _shape.extract(repo)
 
 
@@ -1257,6 +1261,35 @@ def api_views(path, mode):
         f.close()
 
 
+def api_readvals(path):
+    """`Property.values` of every property as nixio reads it (the reader is chosen by the header version): the values,
+    "raises" (IndexError / TypeError from indexing a plain element by field name) or "records" (whole compound rows);
+    None when nixio does not open the file"""
+    nix, _ = _nix()
+    try:
+        f = nix.File.open(path, nix.FileMode.ReadOnly)
+    except Exception:       # not opened: version of another length / major, no valid id where one is required
+        return None
+    try:
+        out = []
+
+        def rec(s, comps):
+            for p in s.props:
+                try:
+                    vs = p.values
+                    got = "records" if any(isinstance(v, np.void) for v in vs) else [_val(v) for v in vs]
+                except (IndexError, TypeError):
+                    got = "raises"
+                out.append({"path": comps + [s.name, "properties", p.name], "out": got})
+            for c in s.sections:
+                rec(c, comps + [s.name, "sections"])
+        for s in f.sections:
+            rec(s, [])
+        return sorted(out, key=lambda e: e["path"])
+    finally:
+        f.close()
+
+
 def _views_of(v, state):
     types = {(a["path"], d["name"]): d["type"] for a in state["arrays"] for d in a["dims"]}
     return {"props": sorted(({"path": p["path"], "values": p["values"], "definition": p["definition"],
@@ -1282,6 +1315,19 @@ def prepare_views(ctx, spec, lib, init, idx, base):
                 av = "%s: %s" % (type(e).__name__, e)
             out["queries"].append(["view", init])
             out["expect"].append(("views before the upgrade", init, av))
+        # the version-switched reader of property values on the file as it is and on what an interruption leaves
+        # (plain datasets under an old version, compound ones under a new version included)
+        for cut in (None, ctx.rng.randrange(1, 9)):
+            if cut is not None:
+                invoke(path, 1, cut, Runs())
+            rv = api_readvals(path)
+            if rv is not None:
+                out["queries"].append(["readvals", abstract(path)])
+                out["expect"].append(("Property.values by header version%s" % ("" if cut is None else
+                                                                               " after a cut before step %d" % cut),
+                                      "readvals", rv))
+            if cut is not None:
+                shutil.copy(base, path)
         runs = Runs()
         ret, info = invoke(path, 1, None, runs)
         after = abstract(path, runs) if ret else None
@@ -1313,6 +1359,8 @@ def finish_views(p, answers):
     for (what, state, want), ans in zip(p["expect"], answers):
         if state is None:
             got = ans
+        elif state == "readvals":
+            got = sorted(ans["ok"], key=lambda e: e["path"]) if "ok" in ans else ans
         else:
             got = _views_of(ans["ok"], state) if "ok" in ans else ans
         if got != want:
@@ -1409,7 +1457,9 @@ def correspondence(ctx):
                     "the (interrupted / complete) first; every state abstracted with h5py and compared with the model "
                     "(steps, error class, return value, version, id, properties per group in container order, "
                     "arrays/dimensions/links, digest of everything else); model views vs nixio API before (old-layout "
-                    "readers) and after; is_uuid texts. non-trivial = file with more than one step",
+                    "readers) and after; Property.values of every dataset as the header version makes nixio read it "
+                    "(values / raises / whole records) on the file as crafted and after a random cut; is_uuid texts. "
+                    "non-trivial = file with more than one step",
             "samples": samples, "distribution": dist, "disagreements": disagreements, "exhaustive": False}
 
 
